@@ -5,6 +5,7 @@ from __future__ import annotations
 import ast
 
 from .c09_terms import Unsup, is_tag, is_const, subterms, tmap, show, first_diff, ZEROS, EMPTY, MP_NAMES, World
+from .c09_facts import consistent
 from .c09_sim import Sim, Frame, PathDead, _Return, _walk_scope, test_dump
 
 MAXLEAVES = 1500
@@ -378,7 +379,11 @@ def compatible(a, b):
         for k, v in asg.items():
             if v and is_tag(k, "cmp") and k[1] == "Eq" and is_const(k[3]):
                 eqs.setdefault(k[2], set()).add(k[3])
-    return all(len(s) <= 1 for s in eqs.values())
+    if not all(len(s) <= 1 for s in eqs.values()):
+        return False
+    u = dict(a)
+    u.update(b)
+    return consistent(u)
 
 
 def equal_mod_alloc(a, b, tolerated):
